@@ -10,7 +10,7 @@ cd $D
 PYTHONPATH=$D timeout 300 /venv/bin/python $OUT/demo.py > $OUT/verify_demo_without.txt 2>&1; WO=$?
 if ! patch -p1 -s -d $D < $OUT/patch.diff > $OUT/verify_apply.txt 2>&1; then echo "$ID APPLY-FAILED"; cat $OUT/verify_apply.txt; rm -rf $D; exit 9; fi
 PYTHONPATH=$D timeout 300 /venv/bin/python $OUT/demo.py > $OUT/verify_demo_with.txt 2>&1; W=$?
-unshare -n sh -c "ip link set lo up; ip route add default dev lo; cd $D && PYTHONPATH=$D timeout 1500 /venv/bin/python -m pytest -q -p no:cacheprovider --timeout=120 tests" > $OUT/verify_suite_with.txt 2>&1
+unshare -n sh -c "ip link set lo up; ip route add default dev lo; cd $D && PYTHONPATH=$D timeout 1500 /venv/bin/python -m pytest -q -p no:cacheprovider --timeout=120 tests --deselect tests/test_gdb.py" > $OUT/verify_suite_with.txt 2>&1
 SUMMARY=$(tail -1 $OUT/verify_suite_with.txt)
 FAILED=$(grep "^FAILED" $OUT/verify_suite_with.txt | grep -v "test_ssl\|test_teleportation\|test_win32pipes\|test_gdb" | tr '\n' ' ')
 echo "$ID demo_without=$WO demo_with=$W suite_with: $SUMMARY unexpected_failures: [$FAILED]" | tee $OUT/verify.txt
